@@ -169,6 +169,10 @@ def check_named(ctx, fmt, mode, plat, variant, drv, rng):
         fobj = open(path, "rb")
         arg = path
         pos = 0
+    elif container == "gzip-fileobj":    # gzip-compressed content handed over as an already open file object (position 0)
+        fobj = io.BytesIO(gzip.compress(data))
+        arg = fname
+        pos = 0
     else:  # bytesio
         fobj = io.BytesIO(data)
         arg = fname
@@ -298,6 +302,8 @@ def run(ctx):
             for fmt in CLASSES:
                 matching = spec_class("NSS.%s.%s.D02187.S1904.E2058.B0921517.GC" % (m, p)) == fmt
                 vs = list(variants_small)
+                if matching:
+                    vs += [("ascii", False, True, "plain", "gzip-fileobj")]
                 if matching and fmt.startswith("pod"):
                     vs += [("ascii-fill", False, True, "plain", "path"), ("ascii-fill", True, True, "name", "bytesio")]
                 if matching:
